@@ -445,3 +445,54 @@ def noncoaxiality(F, how, X):
     with onp.errstate(all="ignore"):
         r = fro(C @ B - B @ C) / (fro(C) * onp.where(nb > 0, nb, 1.0))
     return r.max(axis=-1)
+
+
+# ---------------------------------------------------------------------------------------------------
+# nearly (not exactly) repeated principal stretches (C10): probing deformations with a prescribed small relative gap
+# ---------------------------------------------------------------------------------------------------
+
+NEAR_GAPS = [("1e-5", 1e-5), ("1e-6", 1e-6), ("1e-7", 1e-7)]      # relative gap (c1 - c0) / max(c) of the decomposed tensor
+NEAR_ORIENTATIONS = [("coax", 0.0), ("rot0.5", 0.5)]              # turn of the probe's principal frame about the odd axis
+SETH_HILL_M = 0.25                                                # exponent of J2 'seth hill': E = (C^m - I) / (2 m)
+
+
+def pair_frame(B, angle=0.0):
+    """Principal frame of the symmetric tensor B, ordered (pair, pair, odd) with 'pair' the two closest eigenvalues, as a
+    proper rotation, turned by `angle` about the odd axis.  Returns (eigenvalues in that order, Q).  For a spherical B this
+    is the identity frame turned about z."""
+    B = onp.asarray(B, dtype=float)
+    w, V = onp.linalg.eigh(0.5 * (B + B.T))
+    order = [0, 1, 2] if (w[1] - w[0]) <= (w[2] - w[1]) else [1, 2, 0]
+    w, V = w[order], V[:, order].copy()
+    if onp.linalg.det(V) < 0.0:
+        V[:, 2] = -V[:, 2]
+    return w, V @ rot_z(angle)
+
+
+def near_repeated_stretch(Q, c0, c2, gap):
+    """Symmetric stretch U = Q diag(sqrt(c0), sqrt(c1), sqrt(c2)) Q^T whose square has the eigenvalues (c0, c1, c2) with
+    c1 = c0 + gap * max(c): relative gap `gap` (neighbouring gap / largest eigenvalue, the measure of rel_gap_sym and
+    stretch_info) between the pair (c0, c1); c2 must be far from the pair (asserted: by more than 10 gaps)."""
+    c0, c2, gap = float(c0), float(c2), float(gap)
+    c1 = c0 + gap * c2 if c2 >= c0 / (1.0 - gap) else c0 / (1.0 - gap)
+    assert c0 > 0.0 and c2 > 0.0 and min(abs(c2 - c0), abs(c2 - c1)) > 10.0 * gap * max(c1, c2), (c0, c1, c2, gap)
+    lam = onp.sqrt(onp.array([c0, c1, c2]))
+    Q = onp.asarray(Q, dtype=float)
+    return (Q * lam[None, :]) @ Q.T
+
+
+def seth_hill_c(e, m=SETH_HILL_M):
+    """Eigenvalue of C = F^T F that has the Seth-Hill strain e = (c^m - 1) / (2 m)."""
+    return (1.0 + 2.0 * m * onp.asarray(e, dtype=float)) ** (1.0 / m)
+
+
+def pair_plane_offdiagonal(T, B):
+    """|v_i . B v_j| / |B|_F for the eigenvectors v_i, v_j of the two closest eigenvalues of the symmetric tensor T: measures
+    whether B (the internal state seen by the model) is turned against T's principal axes INSIDE the plane of the nearly
+    repeated pair (the commutator |TB - BT| vanishes with the gap there and cannot show it).  0 for B = 0."""
+    T = onp.asarray(T, dtype=float)
+    B = onp.asarray(B, dtype=float)
+    w, V = onp.linalg.eigh(0.5 * (T + T.T))
+    i, j = (0, 1) if (w[1] - w[0]) <= (w[2] - w[1]) else (1, 2)
+    nb = fro(B)
+    return float(abs(V[:, i] @ (0.5 * (B + B.T)) @ V[:, j]) / nb) if nb > 0 else 0.0
